@@ -632,3 +632,18 @@ def st_param_edits(draw: Any, steps: list, nparams: int) -> None:
             m[idx[0]] = False
             if any(m):
                 steps[t]["mask"] = m
+
+
+def st_exponent_range_class(draw: Any, case: dict) -> dict:
+    """Forced class: the communication dtype has a narrower exponent range than the parameters (float16 communication of bfloat16 / float32 values) and
+    the magnitudes lie where float16 is subnormal or flushes to zero: rescale parameters, gradients and epsilon of a drawn case to ~1e-6."""
+    from hypothesis import strategies as st
+
+    if case.get("comm_dtype") != "fp16" or not draw(st.sampled_from([False, False, True])):
+        return case
+    old = case["cfg"].get("gscale", 1.0) or 1.0
+    new = draw(st.sampled_from([1e-6, 1e-7, 3e-6]))
+    f = new / old
+    case["cfg"] = dict(case["cfg"], gscale=new, epsilon=max(case["cfg"]["epsilon"] * f * f, 1e-30))
+    case["steps"] = [dict(s_, gscale=s_["gscale"] * f) for s_ in case["steps"]]
+    return case
